@@ -210,32 +210,49 @@ def r9(ctx, F, rule, sfx):
     r_new = as_rf(I.get_field(v, 'radius', 'f64'))
     rc = cases(r_new)
     cc = vec_cases(c_new)
-    if len(rc) != 2 or len(cc) != 2:
-        raise AnalysisIncomplete('extend: expected a two-armed result, got %d/%d arms' % (len(rc), len(cc)))
-    # identify arms by the guard: the uninterpreted contains(self, x)
-    def arm(lst, want_contains):
-        for conds, leaf in lst:
-            (cnd,) = conds
-            is_neg = (cnd.op == 'not') or (cnd.op == 'cmp')
-            txt = repr(cnd)
-            if 'contains' not in txt:
-                raise AnalysisIncomplete('extend: guard is not Sphere::contains: %s' % txt)
-            positive = not txt.startswith('!')
-            if positive == want_contains:
-                return leaf
-        raise AnalysisIncomplete('extend: arm not found')
-    r_in, r_out = arm(rc, True), arm(rc, False)
-    c_in, c_out = c3(arm(cc, True)), c3(arm(cc, False))
+    if len(rc) != len(cc) or len(rc) < 2:
+        raise AnalysisIncomplete('extend: result arms %d/%d' % (len(rc), len(cc)))
     C, X = c3(cen), c3(x)
-    ctx.check(rule, 'unchanged-when-contained' + sfx, r_in == rad and all(a == b for a, b in zip(c_in, C)), 'sphere on the contains-arm', 'the old sphere', where(body))
     s = nf.fn_sqrt(dist2(X, C))
-    ctx.check(rule, 'radius=(r+s)/2' + sfx, r_out * r_out == ((rad + s) / 2) * ((rad + s) / 2) and r_out == nf.fn_sqrt(dist2(c_out, X)),
-              short(r_out), '|c\'-x| with |c\'-x|^2 == ((r+|x-c|)/2)^2', where(body))
-    # the antipode of the old sphere (c - r (x-c)/s) is on the new boundary
-    opp = [C[i] - rad * (X[i] - C[i]) / s for i in range(3)]
-    ctx.check(rule, 'antipode-on-boundary' + sfx, dist2(c_out, opp) == r_out * r_out, "|c'-opp|^2 vs r'^2", 'equal', where(body))
-    # centre on the segment: (c'-c) x (x-c) == 0
-    ctx.check(rule, 'centre-on-segment' + sfx, is_zero_vec(cross3(vsub(c_out, C), vsub(X, C))), "(c'-c) x (x-c)", '0', where(body))
+    n_in = n_out = 0
+    for (conds, r_arm), (conds2, c_arm) in zip(rc, cc):
+        if [repr(q) for q in conds] != [repr(q) for q in conds2]:
+            raise AnalysisIncomplete('extend: radius and centre are not gated by the same conditions')
+        contained = None
+        r_zero = False
+        for cnd in conds:
+            txt = repr(cnd)
+            if 'contains' in txt:
+                contained = not txt.startswith('!')
+            elif cnd.op == 'cmp' and {repr(cnd.args[1]), repr(cnd.args[2])} == {'r', '0'}:
+                op, a_, b_ = cnd.args
+                r_left = repr(a_) == 'r'
+                # the arm is taken for r <= 0 / r == 0 / 0 >= r: for a sphere (r >= 0) that is r == 0
+                if op == '==' or (op in ('<=',) and r_left) or (op in ('>=',) and not r_left):
+                    r_zero = True
+                elif (op in ('>', '!=') and r_left) or (op in ('<', '!=') and not r_left):
+                    pass        # r > 0: the generic case
+                else:
+                    raise AnalysisIncomplete('extend: arm condition %s' % txt)
+            else:
+                raise AnalysisIncomplete('extend: arm condition %s is neither Sphere::contains nor a test of the radius against 0' % txt[:80])
+        c_arm = c3(c_arm)
+        tag = ('contained' if contained else 'outside') + ('-r0' if r_zero else '')
+        sub = (lambda e: I.subst(e, {nf.sym_atom('r'): RF.const(0)})) if r_zero else (lambda e: e)
+        if contained:
+            n_in += 1
+            ctx.check(rule, 'unchanged-when-contained' + sfx, sub(r_arm) == sub(rad) and all(sub(a) == sub(b) for a, b in zip(c_arm, C)), 'sphere on the contains-arm', 'the old sphere', where(body), key_extra='in:' + tag)
+            continue
+        # not contained (or contains not consulted on this arm): the smallest sphere through the point and the antipode of the old sphere
+        n_out += 1
+        r_o, c_o = sub(r_arm), [sub(a) for a in c_arm]
+        rr, ss = sub(rad), sub(s)
+        ctx.check(rule, 'radius=(r+s)/2[%s]%s' % (tag, sfx), r_o * r_o == ((rr + ss) / 2) * ((rr + ss) / 2) and r_o * r_o == dist2(c_o, [sub(a) for a in X]),
+                  short(r_o), "|c'-x| with |c'-x|^2 == ((r+|x-c|)/2)^2", where(body), key_extra='radius:' + tag)
+        opp = [sub(C[i]) - rr * (sub(X[i]) - sub(C[i])) / ss for i in range(3)]
+        ctx.check(rule, 'antipode-on-boundary[%s]%s' % (tag, sfx), dist2(c_o, opp) == r_o * r_o, "|c'-opp|^2 vs r'^2", 'equal', where(body), key_extra='antipode:' + tag)
+        ctx.check(rule, 'centre-on-segment[%s]%s' % (tag, sfx), is_zero_vec(cross3(vsub(c_o, [sub(a) for a in C]), vsub([sub(a) for a in X], [sub(a) for a in C]))), "(c'-c) x (x-c)", '0', where(body), key_extra='segment:' + tag)
+    ctx.check(rule, 'both-arms-present' + sfx, n_in >= 1 and n_out >= 1, '%d contained arm(s), %d extending arm(s)' % (n_in, n_out), 'unchanged when contained, extended otherwise', where(body), key_extra='arms')
 
 
 def r10(ctx, F, rule, sfx):
